@@ -422,6 +422,10 @@ def busy_gateway_case(ck, seed, vi, rng):
     ck.count('busy_gateway.cases')
     ck.seen('busy_gateway.kinds', (who, dst, cred, rot))
     ck.nontrivial(('busy-gateway', who, dst, cred, rot))
+    if valid is None and (res is not None or g.ctl.ike_sas):
+        # no connection between THESE two addresses (the peer is configured towards the gateway's other address): nothing is created, nothing is answered
+        ck.violation('ike-sa-created-or-request-answered-for-a-pair-of-addresses-that-has-no-connection', {'from': src, 'to': dst, 'answered': res is not None, 'table': [(x.state.name, str(x.my_addr), str(x.peer_addr)) for x in g.ctl.ike_sas]}, sim.case)
+        return
     if res is None or not p.take_init_response(res):
         if valid:
             ck.violation('busy-gateway:handshake-of-a-configured-pair-of-addresses-not-answered', {'from': src, 'to': dst}, sim.case)
